@@ -91,8 +91,11 @@ def runOp (kind : String) (c : Cfg) (toks : List String) (vars : List (Option VS
   | "vmacro_list" =>
     let args := mkElems id0 (xs.take 6)
     let w := { w with nextId := id0 + args.length }
-    let (v, w) := vmacroList c args newVec w
-    some (setV vars j (some v), w, "ok")
+    match vmacroListOp c args w with
+    | (some v, w, _) => some (setV vars j (some v), w, "ok")
+    -- the harness passes the values through an owning iterator, which drops the ones whose
+    -- expression was never evaluated when the unwinding reaches it (after the vector)
+    | (none, w, rest) => some (vars, (dropAll c rest w).1, "panic")
   | _ =>
     let v ← getV vars j
     match name with
